@@ -364,6 +364,16 @@ func (e *Env) call(x *ast.CallExpr) Val {
 		}
 	}
 	switch fname {
+	case "mapval":
+		// the stored value, not gated by membership (use together with dom())
+		m := e.tr(x.Args[0])
+		k := e.tr(x.Args[1])
+		mt, ok := m.GT.Underlying().(*types.Map)
+		if !ok {
+			e.fail("mapval() of non-map")
+		}
+		eng.regMap(mt)
+		return Val{T: sel(sel(eng.heapGet(e.cur, mapVal(mt)), m.T), k.T), S: eng.sorts.sortOf(mt.Elem()), GT: mt.Elem()}
 	case "lookup":
 		m := e.tr(x.Args[0])
 		k := e.tr(x.Args[1])
